@@ -346,7 +346,7 @@ def run(ctx):
     stats = new_stats()
     rng = ctx.rng(1)
     blocks, expect = [], {}
-    for _ in range(ctx.n(14, 300)):
+    for _ in range(ctx.n(14, 250)):
         one_input(rng, res, stats, blocks, expect)
     check_projections(res, stats, blocks, expect)
     res.rule = ("generated inputs x 3 methods x (un)phased; each dated, then re-dated after each perturbation (node/mutation/"
